@@ -10,7 +10,7 @@ BOUNDS = {
              "leaf default 9; formats over {C,U}^d (quick: CU and UC; thorough: all four, mutability alternating); mutable both ways: rank ids, authoritative shape re-arrangement, default, formats, mutability, coordinates inside "
              "shape and active range, iterActive == iterOccupancy; lazy results (& | ^ - <<, project, prune, intersection, union, coiter*) carry rank id / active range; "
              "an unowned fiber's attributes are replaced by the rank's after Tensor.fromFiber / setRoot; split-then-flatten(absolute), splits selected by rank id (alone and together with a different depth), swizzles that leave a suffix of ranks in place with a 'U' trailing rank, three-rank rotations of a 1x2x3 box",
-    "thorough": "adds [2,2], [0,1], all split kinds with relative coordinates and halos, levels=2 flatten/unflatten on depth 3, 2x2x2 swizzles",
+    "thorough": "adds [2,2], [0,1], the division shorthands, levels=2 flatten/unflatten on depth 3, 2x2x2 swizzles",
 }
 OUTSIDE = "names and colours beyond the '+split' style suffixes; tuple-shaped defaults"
 ASSUMPTIONS = ["A1 integers only", "S1, S2"]
@@ -245,8 +245,9 @@ def obligations(tier):
            ("split_flatten", {"step": 2}), ("split_flatten", {"step": 1}),
            ("splitUniform", {"step": 2, "depth": 1, "via": "rankid"}), ("splitUniform", {"step": 2, "depth": 1, "via": "both"})]
     if not q:
-        xfl += [("splitUniform", {"step": 2, "rel": True}), ("splitUniform", {"step": 2, "pre": 1, "post": 1}), ("truediv", {"parts": 2}), ("floordiv", {"parts": 2}),
-                ("splitEqual", {"size": 2, "depth": 1})]
+        # (splits with halos or relative coordinates are not in this list: a halo element lies outside its partition's active range by
+        #  definition and relative coordinates are offsets, so "stored coordinate inside the fiber's active range" is C08's clause there)
+        xfl += [("truediv", {"parts": 2}), ("floordiv", {"parts": 2}), ("splitEqual", {"size": 2, "depth": 1})]
     for tree in ([[1, 1], [1, 0]] if q else [[2, 1], [1, 1], [1, 0], [2, 2], [0, 1]]):
         ps = names("x", tree_params(tree))
         tp, _, cn = tree_pre(tree, ps)
